@@ -202,6 +202,25 @@ func main() {
 				}
 				emit(map[string]interface{}{"a": "Cut", "k": k, "outcome": o.kind, "lines": len(ls), "same": same})
 			}
+			// the same through ConsoleWriter, which receives ONE event per Write: the whole event is written, every proper
+			// non-empty prefix of it is refused with an error (a partial event must not come out as a line)
+			for i := 1; i < len(bounds) && i <= 3; i++ {
+				ev := full[bounds[i-1]:bounds[i]]
+				whole := guard(console(ev))
+				accepted := []int{}
+				for k := 1; k < len(ev); k++ {
+					if op.Sparse && k > 40 && k < len(ev)-40 && k%7 != 0 {
+						continue
+					}
+					if o := guard(console(ev[:k])); o.kind != "err" {
+						accepted = append(accepted, k)
+					}
+				}
+				if len(accepted) > 20 {
+					accepted = accepted[:20]
+				}
+				emit(map[string]interface{}{"a": "CutVia", "via": "console", "ev": i, "len": len(ev), "whole": whole.kind, "accepted": accepted})
+			}
 		}
 		n++
 	}
